@@ -128,6 +128,25 @@ var hosts = []host{
 		{"TestEvent.eventExt", p2gogo.E_TestEvent_EventExt, 100, func(t *rapid.T) any {
 			return &p2gogo.TestEvent{Name: ptr(str(t)), Embedded: &p2gogo.EmbeddedEvent{ID: ptr(int32(rapid.IntRange(0, 9).Draw(t, "id")))}}
 		}},
+		{"AllOptionalFields.eventExt", p2gogo.E_AllOptionalFields_EventExt, 101, func(t *rapid.T) any {
+			// an extension value that is itself extendable: sometimes empty, sometimes with its own extension set
+			v := &p2gogo.AllOptionalFields{}
+			switch rapid.IntRange(0, 2).Draw(t, "aof") {
+			case 1:
+				v.Field1 = ptr(str(t))
+			case 2:
+				if err := gogo.SetExtension(v, p2gogo.E_EmptyExtension_EventExt, &p2gogo.EmptyExtension{}); err != nil {
+					panic(err)
+				}
+			}
+			return v
+		}},
+	}},
+	{"gogo example AllOptionalFields (no regular field set)", "gogo", func() any { return &p2gogo.AllOptionalFields{} }, []extDef{
+		{"EmptyExtension.eventExt", p2gogo.E_EmptyExtension_EventExt, 101, func(t *rapid.T) any { return &p2gogo.EmptyExtension{} }},
+	}},
+	{"gogo example AllOptionalFields (regular fields set)", "gogo", func() any { return &p2gogo.AllOptionalFields{Field1: ptr("f1"), Field2: ptr(uint64(2))} }, []extDef{
+		{"EmptyExtension.eventExt", p2gogo.E_EmptyExtension_EventExt, 101, func(t *rapid.T) any { return &p2gogo.EmptyExtension{} }},
 	}},
 	{"gogo descriptor.FieldOptions", "gogo", func() any { return &gogodesc.FieldOptions{} }, []extDef{
 		{"gogoproto.nullable", gogoproto.E_Nullable, 65001, func(t *rapid.T) any { return ptr(rapid.Bool().Draw(t, "b")) }},
